@@ -24,7 +24,7 @@ def b2s (b : Bool) : α := if b then 1 else 0
 def rangeFrom (lo hi : Nat) : List Nat := (List.range (hi - lo)).map (lo + ·)
 
 
-/-- `_finite_mean` (umap/umap_.py:164) -/
+/-- `_finite_mean` (umap/umap_.py:167) -/
 def finiteMean (infv : α) (values : List α) : α :=
   let total : α := 0
   let count : Nat := 0
@@ -44,7 +44,7 @@ def finiteMean (infv : α) (values : List α) : α :=
   else
     (total / ((count : Nat) : α))
 
-/-- `fast_intersection` (umap/umap_.py:657) -/
+/-- `fast_intersection` (umap/umap_.py:660) -/
 def fastIntersection (T : Transc α) (rows : List Nat) (cols : List Nat) (values : List α) (target : List Int) (unknown_dist : α) (far_dist : α) : List α :=
   let values := (List.range rows.length).foldl (fun (st : (List α)) (nz : Nat) =>
       let values := st
@@ -65,7 +65,7 @@ def fastIntersection (T : Transc α) (rows : List Nat) (cols : List Nat) (values
       values) values
   values
 
-/-- `reprocess_row` (umap/umap_.py:743) -/
+/-- `reprocess_row` (umap/umap_.py:746) -/
 def reprocessRow (T : Transc α) (infv : α) (probabilities : List α) (k : α) (n_iters : Nat) : List α :=
   let target : α := ((T.log k) / (T.log ((2 : Nat) : α)))
   let lo : α := 0
@@ -105,7 +105,7 @@ def reprocessRow (T : Transc α) (infv : α) (probabilities : List α) (k : α) 
           (hi, mid, lo, brk0_)) (hi, mid, lo, brk0_)
   ((probabilities).map (fun a => T.pow a mid))
 
-/-- `init_transform` (umap/umap_.py:1360) -/
+/-- `init_transform` (umap/umap_.py:1363) -/
 def initTransform (indices : List (List Nat)) (weights : List (List α)) (embedding : List (List α)) : List (List α) :=
   let result : List (List α) := (List.replicate indices.length (List.replicate ((embedding).getD 0 []).length (0 : α)))
   let result := (List.range indices.length).foldl (fun (st : (List (List α))) (i : Nat) =>
@@ -120,7 +120,7 @@ def initTransform (indices : List (List Nat)) (weights : List (List α)) (embedd
       result) result
   result
 
-/-- `init_update` (umap/umap_.py:1434) -/
+/-- `init_update` (umap/umap_.py:1437) -/
 def initUpdate (current_init : List (List α)) (n_original_samples : Nat) (indices : List (List Nat)) : List (List α) :=
   let current_init := (rangeFrom n_original_samples indices.length).foldl (fun (st : (List (List α))) (i : Nat) =>
       let current_init := st
